@@ -20,6 +20,7 @@ from __future__ import annotations
 
 import ast
 import hashlib
+import re
 from fractions import Fraction
 
 
@@ -158,6 +159,8 @@ class Module:
         self.out = []  # emitted definitions (text)
         self.defined = {}  # emitted name -> info dict(params, oracles, ret)
         self.imports = list(imports)  # other Module objects whose definitions may be called
+        self.inline_funcs = {}  # name -> (Module, FunctionDef): simple functions evaluated symbolically at call sites
+        self.variants = {}  # python name -> [(emitted name, {param: constant})]
         self.oracles = []  # section variables (name, type)
 
     def lookup_def(self, name):
@@ -278,7 +281,7 @@ class Tr:
             elif isinstance(k, tuple) and k[0] == "rec":
                 d = {}
                 for fl, fk in k[1]:
-                    pn = mangle(f"{nm}_{fl}".replace("-", "_"))
+                    pn = mangle(re.sub(r"\W+", "_", f"{nm}_{fl}").strip("_"))
                     if fk == "R":
                         d[fl] = Sc(pn)
                         params.append((pn, "R"))
@@ -445,6 +448,10 @@ class Tr:
                         fail(node, "tuple target")
                     names.append(mangle(t.id))
                     env[t.id] = Sc(mangle(t.id))
+                if getattr(val, "is_option", False):
+                    if not self.option:
+                        fail(node, "call of a partial function inside a function not declared partial")
+                    return f"dobind ({', '.join(names)}) <- {val.t} ;;\n"
                 return f"let '({', '.join(names)}) := {val.t} in\n"
             fail(node, "tuple assignment from non-tuple")
         if isinstance(target, ast.Subscript):
@@ -480,7 +487,7 @@ class Tr:
                 if isinstance(key, ast.Constant) and isinstance(key.value, str):
                     d = dict(cur.d)
                     pre = ""
-                    vn = mangle(f"{base.id}_{key.value}".replace("-", "_"))
+                    vn = mangle(re.sub(r"\W+", "_", f"{base.id}_{key.value}").strip("_"))
                     if isinstance(val, (Sc, DL)):
                         pre = f"let {vn} := {val.t} in\n"
                         val = type(val)(vn)
@@ -686,6 +693,13 @@ class Tr:
         return self.callable_named(node.id, node)
 
     def callable_named(self, name, node):
+        for mm in [self.mod] + self.mod.imports:
+            if name in mm.variants:
+                return Fn(lambda tr, nd, args, kwargs, mm=mm, name=name: tr.call_variant(nd, mm, name, args, kwargs))
+        for mm in [self.mod] + self.mod.imports:
+            if name in mm.inline_funcs:
+                fm, fnode = mm.inline_funcs[name]
+                return Fn(lambda tr, nd, args, kwargs, fm=fm, fnode=fnode: tr.call_inline(nd, fm, fnode, args, kwargs))
         m, info = self.mod.lookup_def(name)
         if info is not None:
             return Fn(lambda tr, nd, args, kwargs, m=m, name=name, info=info:
@@ -967,6 +981,34 @@ class Tr:
             kwargs[k.arg] = self.ev(k.value, env)
         return f.call(self, node, args, kwargs)
 
+    def call_inline(self, node, fm, fnode, args, kwargs):
+        names = [a.arg for a in fnode.args.args]
+        if kwargs or len(args) < len(names):
+            fail(node, "inlined call form")
+        env = dict(zip(names, args))
+        if fnode.args.vararg:
+            env[fnode.args.vararg.arg] = SV(args[len(names):])
+        elif len(args) != len(names):
+            fail(node, "inlined call arity")
+        return self.inline(fnode, env)
+
+    def call_variant(self, node, mm, name, args, kwargs):
+        for emitted, fixed in mm.variants[name]:
+            info = mm.defined[emitted]
+            allp = [p for p in info["all_params"] if p != "self"]
+            bound = dict(zip(allp, args))
+            bound.update(kwargs)
+            ok = True
+            for p, c in fixed.items():
+                v = bound.get(p)
+                if v is None and p in info["defaults"]:
+                    v = self.ev(info["defaults"][p], {})
+                if not (isinstance(v, St) and v.s == c):
+                    ok = False
+            if ok:
+                return self.call_defined(node, mm, emitted, info, args, kwargs)
+        fail(node, f"no translated variant of {name} matches the constant arguments")
+
     def call_defined(self, node, m, name, info, args, kwargs):
         """Application of an already-emitted definition."""
         names = info["params"]
@@ -1053,6 +1095,7 @@ class Tr:
         if isinstance(ret, int):
             v = Sc(app)
             v.pair_arity = ret
+            v.is_option = bool(info.get("option"))
             return v
         fail(node, "return kind")
 
